@@ -172,9 +172,10 @@ fn lt_dt(t: &LT) -> DataType {
     }
 }
 
-const GRID: [&str; 24] = [
+const GRID: [&str; 30] = [
     "bool", "i8", "i16", "i32", "i64", "u8", "u32", "u64", "f32", "f64", "dec128", "utf8", "lutf8", "bin", "fsb3", "list", "fsl2",
     "struct", "dict8", "dict32", "ree", "utf8view", "listview", "liststr",
+    "listsv", "structsv", "dictsv", "fslstr", "lbin", "reestr",
 ];
 
 fn parse_lt(s: &str) -> LT {
@@ -201,6 +202,12 @@ fn parse_lt(s: &str) -> LT {
         "dict8" => LT::Dict(DataType::Int8, Box::new(LT::Utf8(false))),
         "dict32" => LT::Dict(DataType::Int32, Box::new(LT::Utf8(false))),
         "ree" => LT::Ree(Box::new(LT::Prim(DataType::Int32))),
+        "reestr" => LT::Ree(Box::new(LT::Utf8(false))),
+        "listsv" => LT::List(Box::new(LT::Utf8View)),
+        "structsv" => LT::Struct(vec![LT::Utf8View, LT::Prim(DataType::Int64)]),
+        "dictsv" => LT::Dict(DataType::Int16, Box::new(LT::Utf8View)),
+        "fslstr" => LT::Fsl(3, Box::new(LT::Utf8(false))),
+        "lbin" => LT::Binary(true),
         "utf8view" => LT::Utf8View,
         "listview" => LT::ListView(Box::new(LT::Prim(DataType::Int32))),
         _ => panic!("unknown type {s}"),
@@ -1427,6 +1434,21 @@ fn main() {
             let class = f.split(|c: char| c == ' ' || c == '[').next().unwrap_or("").to_string();
             let kname = f.split(' ').nth(1).unwrap_or("").split(|c: char| c == '[' || c == ':').next().unwrap_or("").to_string();
             let ftags = if class.starts_with("kernel") || class.starts_with("commute") { format!("{} fail:{} fk:{}", tags, class, kname) } else { format!("{} fail:{}", tags, class) };
+            let ty = line.split(' ').nth(2).unwrap_or("");
+            let n0 = line.split(' ').nth(3) == Some("0");
+            // known findings (see /verif/known_findings.txt): precise class + type + symptom
+            let kf = if ty == "listview" && (class == "eq" || class == "neq") {
+                " kf:listview-equal"
+            } else if class == "kernel" && kname.starts_with("substring") && (ty == "utf8" || ty == "lutf8") && f.contains("=ERR but [plain]=") && !f.contains("[plain]=ERR") {
+                " kf:substring-null-payload"
+            } else if (ty == "listsv" || ty == "structsv" || ty == "dictsv") && (class == "eq" || class == "neq") {
+                " kf:byteview-equal-null-index"
+            } else if class == "commute-concat" && (ty == "ree" || ty == "reestr") && n0 && f.contains("k(concat)=ERR") {
+                " kf:concat-empty-ree"
+            } else {
+                ""
+            };
+            let ftags = format!("{ftags}{kf}");
             sink.oracle_failure(line.clone(), f, &ftags);
         }
         sink.case(line, a, &tags);
@@ -1437,7 +1459,7 @@ fn main() {
         }
     } else {
         let mut rng = Rng::new(args.seed ^ 0xC02);
-        let n = n_cases(&args, 400, 12000);
+        let n = n_cases(&args, 2500, 60000);
         for _ in 0..n {
             let mut lines = vec![];
             gen_column_cases(&mut rng, &mut lines);
